@@ -12,12 +12,13 @@ CLAIMED = {
          "correspondence against http_header_parse_hoff()+http_request_headers_process() incl. every single-byte corruption of 12 base requests; "
          "and over a connection-level model (h1.c: header extent and limits, blank-line rules, Content-Length and chunked body readers with "
          "trailers, keep-alive reuse): a chunked body is read back exactly for every list of chunks, an accepted message consumes exactly its own "
-         "bytes and the rest is parsed independently, nothing follows a refusal; that model is compared with the running server on pipelines "
+         "bytes and the rest is parsed independently, nothing follows a refusal, a verdict of the chunked reader is never revised by bytes that arrive "
+         "later; that model is compared with the running server on pipelines "
          "of valid, corrupted and smuggling-shaped requests under one-piece, random and limit-aimed TCP segmentation",
     note="trusted: Coq kernel, c2v.py, extraction, harness glue, the RFC 9112 reader in props/h1conn.py used as oracle for concrete violations; "
          "IP-literal hosts (inet_pton) are an oracle and skipped; the remaining reject-class clauses (NUL, CTL, WS-before-colon, bare LF, "
          "missing Host) are decided by the monitors over the correspondence runs; timeouts are not modelled (a stream that ends inside a "
-         "message is 'no response owed'); request-body streaming modes other than the default are not exercised (see DESIGN 5/C01, 11.9)",
+         "message is 'no response owed'); stream-request-body 1/2 and header-strict off are run as extra server variants (chunked-to-CGI under streaming is a known finding)",
     technique="Coq proof over executable model + differential correspondence (extracted OCaml vs C harness and vs the running server)",
     design="5/C01"),
  "C02": dict(
@@ -130,7 +131,7 @@ CLAIMED = {
          "path-info split, static-file exclude-extensions): a served file passed mod_access on its own URL path whatever path-info trails it, is not "
          "excluded nor under an auth rule; the decision is a function of the canonical path; percent-encoding and hex case are invisible after "
          "urldecode; letter case is invisible to mod_access under force-lowercase; forwarded headers are ignored from untrusted peers and yield the last "
-         "untrusted hop otherwise; tied by differential correspondence against the real lighttpd (5 configurations, respelling chains, trusted/untrusted "
+         "untrusted hop otherwise; tied by differential correspondence against the real lighttpd (6 configurations incl. one ruled by url.access-allow, respelling chains, trusted/untrusted "
          "loopback peers) and a marker monitor (protected files' markers must never reach a client not entitled to them)",
     note="PARTIAL: invariance of the canonical path under every respelling is proved at the decode layer only (burl_normalize composition, HTTP/2 - every fifth "
          "request is repeated over h2c and must be decided like its HTTP/1.1 twin - and the Forwarded parser are covered by correspondence/monitor, not theorems); "
